@@ -29,7 +29,6 @@ import (
 	"github.com/google/osv-scalibr/guidedremediation"
 	"github.com/google/osv-scalibr/guidedremediation/options"
 	"github.com/google/osv-scalibr/guidedremediation/result"
-	"github.com/google/osv-scalibr/guidedremediation/upgrade"
 	"github.com/ossf/osv-schema/bindings/go/osvschema"
 
 	"verif/harness/hx"
@@ -246,6 +245,7 @@ type rootDep struct {
 	Dev   bool
 	Alias string // npm only: the entry is "Alias": "npm:Name@Req"
 	Opt   bool   `json:",omitempty"` // npm only: the entry sits in optionalDependencies
+	Prop  string `json:",omitempty"` // Maven only: <version>${Prop}</version>, the pom defining <Prop>Req</Prop>
 }
 type e2eCase struct {
 	Eco         string // "n" npm / relax, "m" Maven / override
@@ -299,10 +299,24 @@ func writeRoot(c e2eCase, dir string) string {
 		return p
 	}
 	var sb strings.Builder
-	sb.WriteString("<project>\n  <modelVersion>4.0.0</modelVersion>\n  <groupId>root.g</groupId>\n  <artifactId>root-a</artifactId>\n  <version>1.0</version>\n  <dependencies>\n")
+	sb.WriteString("<project>\n  <modelVersion>4.0.0</modelVersion>\n  <groupId>root.g</groupId>\n  <artifactId>root-a</artifactId>\n  <version>1.0</version>\n")
+	var props []string
+	for _, d := range c.Root {
+		if d.Prop != "" {
+			props = append(props, "    <"+d.Prop+">"+d.Req+"</"+d.Prop+">\n")
+		}
+	}
+	if len(props) > 0 {
+		sb.WriteString("  <properties>\n" + strings.Join(props, "") + "  </properties>\n")
+	}
+	sb.WriteString("  <dependencies>\n")
 	for _, d := range c.Root {
 		g, a, _ := strings.Cut(d.Name, ":")
-		sb.WriteString("    <dependency>\n      <groupId>" + g + "</groupId>\n      <artifactId>" + a + "</artifactId>\n      <version>" + d.Req + "</version>\n")
+		ver := d.Req
+		if d.Prop != "" {
+			ver = "${" + d.Prop + "}"
+		}
+		sb.WriteString("    <dependency>\n      <groupId>" + g + "</groupId>\n      <artifactId>" + a + "</artifactId>\n      <version>" + ver + "</version>\n")
 		if d.Dev {
 			sb.WriteString("      <scope>test</scope>\n")
 		}
@@ -579,12 +593,53 @@ func genE2EIgnoreIntroduced(r *rand.Rand) e2eCase {
 	return c
 }
 
+// genE2EVersionProperty: Maven/override on direct dependencies whose <version> is a property the pom itself defines
+// (<alpha.version>1.0.0</alpha.version> … <version>${alpha.version}</version>), the usual way versions are managed.  The packages have
+// no dependencies of their own, so every update of the case is a DIRECT one and — unless a literal entry is mixed in — the only thing
+// the writer has to change in the file is the value of a property: the patch must still reach the file on disk (a fresh analysis of
+// the written manifest finds the fixed vulnerabilities gone).
+func genE2EVersionProperty(r *rand.Rand) e2eCase {
+	c := e2eCase{Eco: "m", Table: e2eMvnVers, MaxUpgrades: []int{0, 1, 2}[r.Intn(3)], NoIntroduce: r.Intn(4) == 0, DevDeps: true, MaxDepth: -1, Levels: map[string]int{}}
+	names := []string{"g:alpha", "org.x:dot.ted", "g:beta"}
+	props := []string{"alpha.version", "dotted", "version.beta"}
+	n := 1 + r.Intn(3)
+	literal := -1
+	if n > 1 && r.Intn(4) == 0 {
+		literal = r.Intn(n) // one entry with a literal version next to the property ones
+	}
+	nv := 0
+	for i := 0; i < n; i++ {
+		c.Pkgs = append(c.Pkgs, remx.Pkg{Name: names[i], Versions: c.Table})
+		at := r.Intn(3)
+		d := rootDep{Name: names[i], Req: c.Table[at]}
+		if i != literal {
+			d.Prop = props[i]
+		}
+		c.Root = append(c.Root, d)
+		if r.Intn(4) != 0 || (i == n-1 && nv == 0) {
+			nv++
+			fixed := at + 1 + r.Intn(len(c.Table)-at-1)
+			c.Vulns = append(c.Vulns, remx.VulnSpec{ID: vid(nv), Pkg: names[i], Introduced: -1, Fixed: fixed, Last: -1})
+			if r.Intn(3) == 0 && fixed+1 < len(c.Table) { // a second link: the first fix lands in another vulnerable range
+				nv++
+				c.Vulns = append(c.Vulns, remx.VulnSpec{ID: vid(nv), Pkg: names[i], Introduced: fixed, Fixed: fixed + 1, Last: -1})
+			}
+		}
+	}
+	if r.Intn(5) == 0 {
+		c.Levels[names[r.Intn(n)]] = 1 + r.Intn(3)
+	}
+	return c
+}
+
 func genE2E(r *rand.Rand) e2eCase {
 	switch r.Intn(8) {
 	case 0, 1:
 		return genE2ESideEffect(r)
 	case 2:
 		return genE2EIgnoreIntroduced(r)
+	case 3:
+		return genE2EVersionProperty(r)
 	}
 	c := e2eCase{Eco: "n", Table: e2eNpmVers, MaxUpgrades: []int{1, 1, 1, 0, 2}[r.Intn(5)], NoIntroduce: r.Intn(4) == 0, DevDeps: r.Intn(4) != 0, MaxDepth: []int{-1, -1, 1, 2}[r.Intn(4)], Levels: map[string]int{}}
 	names := []string{"alpha", "socket.io", "@scope/beta", "tee"}
